@@ -122,9 +122,11 @@ theorem counters_carried :
 
 example : modelUpdates.length = 2 := by decide +kernel
 
-/-- The standard sampler re-arms `sampling_start_time` when `nested_sampling_loop` is entered — the hypothesis
-`resetStart` of `sampling_time_cumulative`. -/
-theorem standard_loop_rearms_start : loopResetsStart.lookup "NestedSampler" = some true := by decide +kernel
+/-- Both samplers re-arm `sampling_start_time` when `nested_sampling_loop` is entered — the hypothesis `resetStart` of
+`sampling_time_cumulative` holds for the standard and for the importance sampler. -/
+theorem loops_rearm_start :
+    loopResetsStart.lookup "NestedSampler" = some true ∧ loopResetsStart.lookup "ImportanceNestedSampler" = some true := by
+  decide +kernel
 
 example : loopResetsStart.length = 2 := by decide +kernel
 
@@ -163,13 +165,12 @@ theorem pool_flag_restored :
 
 example : (sites.filter fun s => s.attr == "populated").length = 2 := by decide +kernel
 
-/-- PARTIAL (gap: `m` in `FlowProposal.resume` — read when the saved mask is not a `list`, e.g. a NumPy mask; recorded as
-a known finding and reproduced by the harness on the real code): no OTHER local of a resume-path function is read where
-it is not definitely assigned. -/
-theorem resume_locals_bound_partial :
-    maybeUnbound.all (fun p => p == ("FlowProposal.resume", "m")) = true := by decide +kernel
+/-- No local variable of a resume-path function is read where it is not definitely assigned (conservative flow
+analysis of the translator: if/else joins intersect, loop and try bodies contribute nothing) — in particular the mask
+handed to the rebuilt flow is bound whatever the type of the saved mask. -/
+theorem resume_locals_bound : maybeUnbound = [] := by decide +kernel
 
-example : maybeUnbound.length ≤ 1 := by decide +kernel
+example : (calls.filter fun c => c.1 == "FlowProposal.resume").length ≥ 3 := by decide +kernel
 
 /-! ## (b) the accounts, for every history -/
 
@@ -225,7 +226,7 @@ theorem accounts_never_reset_fails_without_no_kill :
     (exec ⟨true, true⟩ {} [.launch, .run 3 1 1, .checkpoint, .run 4 1 1, .kill, .launch]).mEvals = 3
     ∧ sumE (performed false [.launch, .run 3 1 1, .checkpoint, .run 4 1 1, .kill, .launch]) = 7 := by decide
 
-/-- Sampling time is cumulative when the loop re-arms its start (standard sampler, `standard_loop_rearms_start`):
+/-- Sampling time is cumulative when the loop re-arms its start (both samplers, `loops_rearm_start`):
 after ANY history the current sampling time of a live sampler is the sum of the ticks of the retained steps (down-time
 and discarded segments excluded), `sampling_time` itself and the file carry the committed part. -/
 theorem sampling_time_cumulative (c : Cfg) (hf : c.freshModel = true) (hr : c.resetStart = true) (h : List Op) :
@@ -245,17 +246,18 @@ theorem sampling_time_cumulative (c : Cfg) (hf : c.freshModel = true) (hr : c.re
 example : (exec ⟨true, true⟩ {} [.launch, .run 1 5 0, .checkpoint, .run 1 3 0, .checkpoint, .kill, .down 10, .launch,
     .run 1 2 0, .checkpoint]).stime = 10 := by decide
 
-/-- The hypothesis `resetStart` is needed, and the importance sampler does not meet it (its `nested_sampling_loop`
-never re-arms `sampling_start_time`, see `loopResetsStart`): the resumed sampler keeps the pickled start, so the next
-checkpoint adds the last segment again plus the whole down-time (here 23 instead of 10). -/
+/-- The hypothesis `resetStart` is needed (a fact about the model; both samplers meet it, see `loops_rearm_start`): a loop
+that does not re-arm `sampling_start_time` leaves the resumed sampler with the pickled start, so the next checkpoint adds
+the last segment again plus the whole down-time (here 23 instead of 10). -/
 theorem sampling_time_cumulative_fails_without_reset :
     (exec ⟨false, true⟩ {} [.launch, .run 1 5 0, .checkpoint, .run 1 3 0, .checkpoint, .kill, .down 10, .launch,
       .run 1 2 0, .checkpoint]).stime = 23
     ∧ sumT (logOf {} [.launch, .run 1 5 0, .checkpoint, .run 1 3 0, .checkpoint, .kill, .down 10, .launch,
       .run 1 2 0, .checkpoint]).retained = 10 := by decide
 
-/-- PARTIAL (gap: no upper bound — with a stale start the time may be over-counted, see the counter-example above):
-even without the re-arming, sampling time is never lost or reset; it is at least the retained ticks. -/
+/-- PARTIAL (a fact about the model for a loop that does NOT re-arm its start — no sampler does that any more; gap: no
+upper bound, the time may be over-counted as in the counter-example above): even then sampling time is never lost or
+reset; it is at least the retained ticks. -/
 theorem sampling_time_stale_start_partial (c : Cfg) (hf : c.freshModel = true) (h : List Op) :
     let s := exec c {} h
     let l := logOf {} h
